@@ -607,7 +607,7 @@ func Run(spec Spec, waitOrphans bool) (*Obs, *Sim, error) {
 		return &rcv{w: w, inc: int(w.incs.Add(1))}
 	}
 	spawnDiverged := ""
-	var sharedOpt actor.OptFunc
+	var sharedOpt, sharedOpt2 actor.OptFunc
 	var decoy *actor.PID
 	spawn := func(first bool) {
 		w.firstSpawn = first
@@ -627,9 +627,21 @@ func Run(spec Spec, waitOrphans bool) (*Obs, *Sim, error) {
 					copy(base, mws[:spec.Split])
 					sharedOpt = actor.WithMiddleware(base...)
 				}
-				opts = append(opts, sharedOpt, actor.WithMiddleware(mws[spec.Split:]...))
+				// ... and the second option value is the same one for every spawn of the history (an opts
+				// slice built once and used for a pool of workers, or for every respawn)
+				if sharedOpt2 == nil {
+					sharedOpt2 = actor.WithMiddleware(mws[spec.Split:]...)
+				}
+				opts = append(opts, sharedOpt, sharedOpt2)
 			} else {
-				opts = append(opts, actor.WithMiddleware(mws...))
+				if sharedOpt2 == nil {
+					sharedOpt2 = actor.WithMiddleware(mws...)
+				}
+				opts = append(opts, sharedOpt2)
+			}
+			if spec.EmptyMW {
+				// optional extras, none configured: an empty option after the real ones changes nothing
+				opts = append(opts, actor.WithMiddleware())
 			}
 		}
 		switch spec.SpawnCtx {
